@@ -1,0 +1,10 @@
+//go:build verif
+
+package interrupt
+
+// Comment-only file: it is compiled only with -tags verif and contains no code.
+
+// Registering a cleaner only records it.
+//@ func RegisterCleaner
+//@   trusted
+//@   modifies nothing
